@@ -583,10 +583,14 @@ def discrete_SIR(G, test_transmission=_simple_test_transmission_, args=(), test_
                 node_history[node] = ([tmin], ['R'])
     
     N=G.order()
+    if initial_recovereds is None:
+        nR = 0
+    else:
+        nR = len(initial_recovereds)
     t = [tmin]
-    S = [N-len(initial_infecteds)]
+    S = [N-len(initial_infecteds)-nR]
     I = [len(initial_infecteds)]
-    R = [0]
+    R = [nR]
     
     susceptible = defaultdict(lambda: True)  
     #above line is equivalent to u.susceptible=True for all nodes.
@@ -598,10 +602,9 @@ def discrete_SIR(G, test_transmission=_simple_test_transmission_, args=(), test_
             susceptible[u] = False
         
     infecteds = set(initial_infecteds)
-    totR= 0
+    totR= nR
     nI = len(initial_infecteds)
-    nR = 0
-    nS = N - nI
+    nS = N - nI - nR
     
     while infecteds and t[-1]<tmax:
         new_infecteds = set()
